@@ -9,6 +9,7 @@ import (
 	"strings"
 
 	"github.com/rkosegi/yaml-toolkit/pipeline"
+	"gopkg.in/yaml.v3"
 )
 
 // C14 — iteration and calls: forEach per-item execution, scoped variables / arguments, loop order,
@@ -20,9 +21,9 @@ import (
 
 func init() {
 	register(&Prop{ID: "C14", Run: c14Run,
-		Rule: "foreach: item source {literal items, list query, dotted list query, query of a list inside a list (`nest[1]`), query of a SPARSE list the program itself fills through indexed paths (`xs[3]`; the slots in between are padding), leaf query, container query, list of containers, missing path} x NULL entries (YAML nulls, never-written slots, a null leaf; one, several, all of them — a null entry is an item) x variable {default, named} x body {ext trace, log, both} + logging child + failing position {none, top-level abort/ext-fail (first item), conditional child at the first flagged item, non-boolean condition}, x the body WRITES INTO THE LIST IT ITERATES OVER (sources list, deep, nested, sparse, clist: a template operation overwrites one slot in place on every pass — a slot visited later, the current one, one visited before, the slot after the last —: the items are the entries the list had when the loop started) x a child of the body logs a template that FAILS WHILE IT IS EXECUTED after having produced output (the line is the text as it stands, the lines rendered after it are what they are without it) x the same forEach operation VALUE executed twice (the second run does what the first did) x a log operation after the forEach / after the call that reads the variable / the arguments through a TEMPLATE (gone for the template engine's snapshot as for Lookup), with the direct predicates closed-form trace AND number of passes through the body == number of items (counted on listener events, whatever the body prints) AND final data == data at loop start except for the written slot; first the smallest such records, then random ones; loop: bound n in 0..6 x failure in iteration k (body or post) x counter written by post or body x with/without init; call: argsPath {default, single key, dotted 2 and 3, templated} x static/templated argument x an argument (top-level and nested) whose template fails while it is executed after having produced output (it is passed as the text it is, the others rendered) x nested callee with its own argsPath x failure {none, inner, outer} x pre-existing data at the path's parent; callrep: ONE call operation that runs m = 0..5 times with argument templates (top-level and nested) whose input changes between the runs — in a loop body (input = counter), in a forEach body (input = item; call directly among the body's operations or in a `steps` child; literal items / list query) or as the same operation value passed to Execute repeatedly — x argsPath x failure from the k-th run on: the m-th run must see the arguments rendered against the data of the m-th run (closed-form trace); defs: all sequences of length<=4 over {define f=first, define f=second, define g, call f, call g, call undefined}; nest: 1..3 iteration mechanisms nested in each other — forEach (literal items / list query whose list may hold null entries, default or custom variable) / loop (bound 0..3) / call, each holding the next one among its body's OPERATIONS or in a `steps` child — whose innermost body reads every variable in scope when it runs (call arguments, or a template operation printed by a callable), x optional ext trace per body x failure from the k-th innermost run on: closed-form trace = product of the layers' items in order up to the failure, variables and arguments gone, nothing else disturbed; rand: random nested programs (texts now and then hold a template that fails while it is executed or does not parse; forEach in forEach — also over lists with null entries and over a null leaf —, loops and calls inside bodies, set/template bodies — some template operations write into a slot of one of the lists the program iterates over —, conditions that may be blank, depth<=3) compared with the model and with the independent Go reference interpreter of c12_ref.go (direct predicate; the reference answers inside its domain: plain dotted key paths, container queries with at most one key). Every program runs twice (Go structs, generated YAML). Non-trivial: at least one iteration / call actually executes. Distinct = distinct canonical case JSON.",
+		Rule: "item texts (VALUE RANGE; foreach, callrep and nest records): plain words and — one item in three — texts with leading / trailing / inner white space (space, tab, NBSP, NEL, CR, line ends), white-space-only and empty texts, letter-case twins, non-ASCII incl. supplementary-plane characters and U+FFFD, characters that look like syntax ({ } ( ) [ ] = : # ! \\ / . ~ -), digit strings beyond 64 bits and at 2^53+1, boolean / null spellings: the variable is bound to the item AS IT IS (texts yaml.v3 cannot carry through the generated-YAML entry point are left out; keys of a queried container stay path-safe, with letter-case twins). foreach: item source {literal items, list query, dotted list query, query of a list inside a list (`nest[1]`), query of a SPARSE list the program itself fills through indexed paths (`xs[3]`; the slots in between are padding), leaf query, container query, list of containers, missing path} x NULL entries (YAML nulls, never-written slots, a null leaf; one, several, all of them — a null entry is an item) x variable {default, named} x body {ext trace, log, both} + logging child + failing position {none, top-level abort/ext-fail (first item), conditional child at the first flagged item, non-boolean condition}, x the body WRITES INTO THE LIST IT ITERATES OVER (sources list, deep, nested, sparse, clist: a template operation overwrites one slot in place on every pass — a slot visited later, the current one, one visited before, the slot after the last —: the items are the entries the list had when the loop started) x a child of the body logs a template that FAILS WHILE IT IS EXECUTED after having produced output (the line is the text as it stands, the lines rendered after it are what they are without it) x the same forEach operation VALUE executed twice (the second run does what the first did) x a log operation after the forEach / after the call that reads the variable / the arguments through a TEMPLATE (gone for the template engine's snapshot as for Lookup), with the direct predicates closed-form trace AND number of passes through the body == number of items (counted on listener events, whatever the body prints) AND final data == data at loop start except for the written slot; first the smallest such records, then random ones; loop: bound n in 0..6 x failure in iteration k (body or post) x counter written by post or body x with/without init; call: argsPath {default, single key, dotted 2 and 3, templated} x static (a text of the value range above, passed as it is) / templated argument x an argument (top-level and nested) whose template fails while it is executed after having produced output (it is passed as the text it is, the others rendered) x nested callee with its own argsPath x failure {none, inner, outer} x pre-existing data at the path's parent; callrep: ONE call operation that runs m = 0..5 times with argument templates (top-level and nested) whose input changes between the runs — in a loop body (input = counter), in a forEach body (input = item; call directly among the body's operations or in a `steps` child; literal items / list query) or as the same operation value passed to Execute repeatedly — x argsPath x failure from the k-th run on: the m-th run must see the arguments rendered against the data of the m-th run (closed-form trace); defs: all sequences of length<=4 over {define f=first, define f=second, define g, call f, call g, call undefined}; nest: 1..3 iteration mechanisms nested in each other — forEach (literal items / list query whose list may hold null entries, default or custom variable) / loop (bound 0..3) / call, each holding the next one among its body's OPERATIONS or in a `steps` child — whose innermost body reads every variable in scope when it runs (call arguments, or a template operation printed by a callable), x optional ext trace per body x failure from the k-th innermost run on: closed-form trace = product of the layers' items in order up to the failure, variables and arguments gone, nothing else disturbed; rand: random nested programs (texts now and then hold a template that fails while it is executed or does not parse; forEach in forEach — also over lists with null entries and over a null leaf —, loops and calls inside bodies, set/template bodies — some template operations write into a slot of one of the lists the program iterates over —, conditions that may be blank, depth<=3) compared with the model and with the independent Go reference interpreter of c12_ref.go (direct predicate; the reference answers inside its domain: plain dotted key paths, container queries with at most one key). Every program runs twice (Go structs, generated YAML). Non-trivial: at least one iteration / call actually executes. Distinct = distinct canonical case JSON.",
 		Assumptions: []string{
-			"template semantics owned by the model: literal text and {{ .a.b }} field chains of scalars; strconv.ParseBool",
+			"template semantics owned by the model: literal text and {{ .a.b }} field chains of scalars; strconv.ParseBool; trimming (template operations with trim, conditions) strips what strings.TrimSpace strips — unicode.IsSpace, NBSP and NEL included: the model's `trim` lists the same characters",
 			"loop counters are written by the harness' own ext action `inc` (data[id]++, data[id_go] := data[id] < n, data[id_end] := !(data[id] < n)), mirrored by the model",
 			"container queries: Go map order is unspecified, so traces are compared as multisets and bodies have per-item disjoint effects",
 			"variable names / argument paths are not otherwise present in the data (the property's domain); bodies do not write below the loop variable",
@@ -480,6 +481,17 @@ type c14Call struct {
 	// the call is followed by a log operation that READS THE ARGUMENTS THROUGH A TEMPLATE (the data snapshot the
 	// template engine gets — another route than Lookup): gone means gone there too
 	After bool `json:"after,omitempty"`
+	// the static argument text (used when the argument is no template; "" = "V"): the value range of a text — the
+	// callable sees the argument AS IT IS (white space around it, case, non-ASCII, syntax look-alikes, long digit strings)
+	Val string `json:"val,omitempty"`
+}
+
+// the static argument of a call record
+func (p *c14Call) static() string {
+	if p.Val == "" || strings.Contains(p.Val, "{{") {
+		return "V"
+	}
+	return p.Val
 }
 
 const c14BadArg = "B-{{ .name.nope }}-{{ .keep.x }}"
@@ -537,7 +549,7 @@ func (p *c14Call) prog() []c12Op {
 	if p.Fail == "inner" {
 		g.Children = []c12Act{{Name: "fail", Order: 1, Ops: []c12Op{{K: "ext", Fn: "fail", ID: "G"}}}}
 	}
-	val := "V"
+	val := p.static()
 	if p.Tmpl {
 		val = "{{ .name }}-{{ .keep.x }}"
 	}
@@ -558,7 +570,7 @@ func (p *c14Call) prog() []c12Op {
 }
 
 func (p *c14Call) expect() (evs [][]any, failed bool) {
-	val := "V"
+	val := p.static()
 	if p.Tmpl {
 		val = "N-1"
 	}
@@ -944,11 +956,15 @@ func (g *c14Gen) compound(depth int) c12Op {
 			for i, n := 0, r.Intn(4); i < n; i++ {
 				switch r.Intn(4) {
 				case 0:
-					its = append(its, c12VoR{IsRef: true, Ref: pick(r, []string{"name", "keep.x", "nokey", "xs", "tmplv"})})
+					its = append(its, c12VoR{IsRef: true, Ref: pick(r, []string{"name", "keep.x", "nokey", "xs", "tmplv", "padded", "blank"})})
 				case 1:
 					its = append(its, c12VoR{Val: g.ref()})
 				default:
-					its = append(its, c12VoR{Val: g.fresh("i")})
+					it := g.fresh("i")
+					if r.Intn(4) == 0 {
+						it = pick(r, []string{" " + it, it + " ", it + "\n", "\u00a0" + it, " ", strings.ToUpper(it)}) // the item as it is
+					}
+					its = append(its, c12VoR{Val: it})
 				}
 			}
 			op.Items = &its
@@ -1016,10 +1032,66 @@ func c14RandData() W {
 		"cfg": map[string]any{"mode": "m1"}, "xs": []any{"a", 2, true, "d"}, "deep": map[string]any{"er": map[string]any{"xs": []any{"p", nil, "q"}}},
 		"qpath": "xs", "empty": []any{}, "one": map[string]any{"only": 1}, "tmplv": "{{ .name }}",
 		// lists with null entries (items like any other) and a null leaf
-		"ns": []any{nil, "u", nil, false}, "nul": nil})
+		"ns": []any{nil, "u", nil, false}, "nul": nil,
+		// leaves whose text has white space around it / is nothing but white space (items given by reference)
+		"padded": "  p \n", "blank": " "})
 }
 
 // ---------------------------------------------------------------- run
+
+// c14ItemTexts: the VALUE RANGE of an item (literal items, entries of a queried list, a queried leaf, the field
+// of a container entry; call arguments rendered from them).  "with the loop variable bound to that item": the item
+// as it is — leading / trailing / inner white space (space, tab, NBSP, line end) and white-space-only texts, the
+// empty text, letter-case twins of other items, non-ASCII (supplementary plane included) and U+FFFD, characters
+// that look like syntax, digit strings beyond 64 bits, boolean / null spellings — not a cleaned-up form of it.
+// (None starts with a tab AND holds a line end: yaml.v3 cannot read back the block scalar it writes for those.)
+var c14ItemTexts = []string{" a", "b ", " c ", " ", "  ", "\td", "e\n", "\n", " \n", "x\n\n", "\r", "\u0085", "\u00a0f", "g\u00a0", "h\r\n", " i\t", "A", "a b", "ZZ", "Zz",
+	"\U0001F680", "\U0001D6FCx", "\ufffd", "é ", "{x}", "}", "(y)", "[0]", "k=v", "k: v", "- x", "#c", "!t", "\\", "a/b", "a//b", "./a", "a/", "a.b", ".a", "a.", "~", "",
+	"12345678901234567890123", "9223372036854775808", "18446744073709551616", "9007199254740993", "true", "T", "f", "0", "-0", "1.0", "null", "nil"}
+
+// c12YamlCarries: yaml.v3 reads back, from the text it writes for s, exactly s (it does not for every string: a
+// text that starts with a tab and holds a line end, a text that is nothing but line ends).  The harness' second
+// entry point — the program decoded from generated YAML — can only be fed texts the codec carries.
+func c12YamlCarries(s string) bool {
+	b, err := yaml.Marshal(map[string]any{"k": []any{s}})
+	if err != nil {
+		return false
+	}
+	var back map[string][]string
+	return yaml.Unmarshal(b, &back) == nil && len(back["k"]) == 1 && back["k"][0] == s
+}
+
+func init() {
+	var ok []string
+	for _, s := range c14ItemTexts {
+		if c12YamlCarries(s) {
+			ok = append(ok, s)
+		}
+	}
+	c14ItemTexts = ok
+}
+
+// c14PickItems: n item texts: distinct entries of the plain pool, each replaced — one time in three — by a text of
+// the value range (cont: the items are KEYS of a container: path-safe ones only, with letter-case twins)
+func c14PickItems(r *rand.Rand, strs []string, n int, source string) []string {
+	pool := strs
+	if source == "cont" {
+		pool = append(append([]string{}, strs...), "A", "Zz", "ZZ", "G")
+	}
+	for j := len(pool); j < n; j++ {
+		pool = append(append([]string{}, pool...), fmt.Sprintf("w%d", j)) // lists longer than the pool (two-digit indices)
+	}
+	perm := r.Perm(len(pool))
+	var out []string
+	for j := 0; j < n && j < len(perm); j++ {
+		it := pool[perm[j]]
+		if source != "cont" && r.Intn(3) == 0 {
+			it = pick(r, c14ItemTexts)
+		}
+		out = append(out, it)
+	}
+	return out
+}
 
 func c14Run(c *Ctx) {
 	r := c.Rng
@@ -1032,6 +1104,11 @@ func c14Run(c *Ctx) {
 			c.Do("foreach", c14FE{Source: src, Items: []string{"a", "b", "c"}, Bad: []bool{false, false, false}, Log: true, Var: sp("it"), Write: w})
 		}
 	}
+	// the smallest records with items that are not plain words: surrounded by white space, white space only, empty,
+	// a letter-case twin of the neighbour
+	for _, src := range []string{"items", "list", "leaf", "clist"} {
+		c.Do("foreach", c14FE{Source: src, Items: []string{" a ", " ", "", "A", "a"}, Bad: []bool{false, false, false, false, false}, Log: true})
+	}
 	for _, src := range []string{"items", "list", "leaf", "cont"} {
 		c.Do("foreach", c14FE{Source: src, Items: []string{"a", "b"}, Bad: []bool{false, false}, Log: true, Child: true, Noise: true})
 		c.Do("foreach", c14FE{Source: src, Items: []string{"a", "b"}, Bad: []bool{false, false}, Log: true, Ext: true, Twice: true})
@@ -1042,11 +1119,10 @@ func c14Run(c *Ctx) {
 			Ext: r.Intn(2) == 0, Log: r.Intn(4) > 0, Child: r.Intn(2) == 0}
 		n := r.Intn(5)
 		if r.Intn(8) == 0 {
-			n = pick(r, []int{5, 6, 7, 9}) // lists whose backing array has / has no spare capacity when the body appends
+			n = pick(r, []int{5, 6, 7, 9, 10, 11, 12}) // lists whose backing array has / has no spare capacity when the body appends; two-digit indices
 		}
-		perm := r.Perm(len(strs))
+		p.Items = c14PickItems(r, strs, n, p.Source)
 		for j := 0; j < n; j++ {
-			p.Items = append(p.Items, strs[perm[j]])
 			p.Bad = append(p.Bad, false)
 		}
 		if n >= 2 && p.Source != "cont" && r.Intn(8) == 0 {
@@ -1070,7 +1146,7 @@ func c14Run(c *Ctx) {
 			}
 		}
 		if r.Intn(3) > 0 {
-			p.Var = sp(pick(r, []string{"it", "item", "v_1", "forEach", "X"}))
+			p.Var = sp(pick(r, []string{"it", "item", "v_1", "forEach", "X", "Keep", "OTHER", "xS"})) // incl. letter-case twins of keys the data holds
 		}
 		switch p.Source {
 		case "clist":
@@ -1108,6 +1184,9 @@ func c14Run(c *Ctx) {
 		p := c14Call{ArgsPath: pick(r, paths), Tmpl: r.Intn(2) == 0, Nested: r.Intn(2) == 0,
 			Fail: pick(r, []string{"", "", "inner", "outer"}), Sibling: r.Intn(3) == 0, BadArg: r.Intn(5) == 0, After: r.Intn(3) == 0}
 		p.Inner = pick(r, []*string{sp("in"), sp("in.ner"), sp("x.y.z"), sp("p2")})
+		if !p.Tmpl && r.Intn(2) == 0 {
+			p.Val = pick(r, c14ItemTexts)
+		}
 		c.Do("call", p)
 	}
 	// the smallest records first (so that a failure is reported on a minimal one), then random ones
@@ -1129,10 +1208,7 @@ func c14Run(c *Ctx) {
 			Nested: r.Intn(2) == 0, Const: r.Intn(2) == 0, Log: r.Intn(3) == 0}
 		if p.Mode == "foreach" {
 			p.N = 0
-			perm := r.Perm(len(strs))
-			for j, n := 0, r.Intn(5); j < n; j++ {
-				p.Items = append(p.Items, strs[perm[j]])
-			}
+			p.Items = c14PickItems(r, strs, r.Intn(5), "items")
 			if len(p.Items) > 0 && r.Intn(5) == 0 { // an item may occur twice
 				p.Items = append(p.Items, p.Items[0])
 			}
